@@ -275,7 +275,7 @@ func runC16(p *Plan, res *Result) {
 	wg.Wait()
 	st.SetRaw(nil)
 	if !okRun {
-		res.HarnessErr = "scheduler watchdog: no task made progress for 60 s"
+		res.HarnessErr = "scheduler watchdog: no task made progress for 60 s: " + sched.stuck
 		return
 	}
 	res.Stats["sched_steps"] += sched.pos
